@@ -41,6 +41,12 @@ func suiteSnake(c *ctx) {
 		rec(nil, l)
 		c.counts[fmt.Sprintf("exhaustive_len_%d", l)] = pow(len(alpha), l)
 	}
+	// fixed identifiers: boundary letters (z / Z, a / A), digits and underscores next to capital runs
+	for k, s := range []string{"z", "Z", "zZ", "Zz", "aZz", "zB", "fooZ", "buzzWord", "ZZTop", "AzB", "MD5", "HTTP2Log", "URL_Path", "Net__Total",
+		"a___b", "Foo_Bar", "IDs", "APIs", "userIDs", "A", "aA", "Aa", "AAa", "aAA", "PRIMARY_KEY", "AUTO_INCREMENT", "x9Y", "X9y", "_", "__A"} {
+		o := guard(func() string { return utils.ToSnakeCase(s) })
+		c.emit(fmt.Sprintf("fx%d", k), "snake", q(s), q(o))
+	}
 	// random longer identifiers over the full ASCII identifier alphabet, biased towards caps runs and a final 's'
 	const letters = "abcdefghijklmnopqrstuvwxyz"
 	const caps = "ABCDEFGHIJKLMNOPQRSTUVWXYZ"
